@@ -5,6 +5,7 @@ import (
 	"fmt"
 	"net"
 	"os"
+	"strings"
 	"time"
 
 	"github.com/jwhited/corebgp"
@@ -550,6 +551,14 @@ func c06Check(c *harness.Ctx) {
 			return
 		}
 	}
+	for i, size := range c06RefusedSizes {
+		if !c.Mine(i + 11) {
+			continue
+		}
+		if !exploreScn(c, "C06", c06RefusedWriteScn(size, 1)) {
+			return
+		}
+	}
 	k := 0
 	for _, pair := range [][2]int{{3, 90}, {9, 3}, {0, 90}, {90, 0}, {9, 90}} {
 		for _, tr := range c06Traffic {
@@ -582,6 +591,103 @@ var c06ProbeSteps int
 // writes ONE UPDATE at step j of the execution, for every j in a window that starts just before the first
 // periodic KEEPALIVE is due and covers the FSM's whole keepalive path. Afterwards corebgp must not be
 // silent for more than H/3 + 1 s.
+// c06RefusedWriteScn: the plugin calls WriteUpdate once a second with a body corebgp may refuse (longer than
+// 4077 octets; what a tree does with it is not C06's business: it may send it, or return an error). Whatever
+// it does, the KEEPALIVE cadence is relative to what was actually sent: while the session is up corebgp never
+// stays silent for longer than a third of the hold time (9 s; 1 s slack). Judged on the raw writes of the
+// connection, so that an oversized message on the wire does not matter.
+func c06RefusedWriteScn(size, bound int) *Scn {
+	name := fmt.Sprintf("refused-write/%d", size)
+	return &Scn{Name: name, Bound: bound, Run: func(ch vrt.Chooser, trace bool) *ScnResult {
+		var w *world.World
+		var estT, endT int64 = -1, -1
+		e := vrt.Run(vrt.Config{Horizon: int64(60 * time.Second), Trace: trace, Chooser: ch}, func() {
+			w = world.New(libIP)
+			w.NewServer(libIP)
+			pl := &world.Plugin{W: w, Peer: "P1", NoYield: ch == nil}
+			pl.OnEst = func(p *world.Plugin, s int, wr corebgp.UpdateMessageWriter) {
+				if s != 1 {
+					return
+				}
+				vrt.GoWorld("local-writer", func() {
+					for i := 0; i < 11; i++ {
+						vrt.Sleep(time.Second)
+						wr.WriteUpdate(make([]byte, size)) // nolint: errcheck
+					}
+				})
+			}
+			w.NW.OnDial(remAddr, func(att int, from *net.TCPAddr) vnet.DialOutcome {
+				if att > 0 {
+					return vnet.DialOutcome{Kind: vnet.DialRefuse}
+				}
+				return vnet.DialOutcome{Kind: vnet.DialAccept, Serve: func(c *vnet.Conn) {
+					r := w.NewRemote(c, "P1")
+					defer r.Finish()
+					if _, ok := r.Expect(wire.TypeOpen); !ok {
+						return
+					}
+					r.Send(wire.Open(65002, 9, 0x0a000002))
+					if _, ok := r.Expect(wire.TypeKeepalive); !ok {
+						return
+					}
+					r.Send(wire.Keepalive())
+					estT = vrt.Cur().Now()
+					// keeps the session alive, reads nothing more (no window: corebgp's writes never block)
+					for i := 0; i < 12; i++ {
+						vrt.Sleep(time.Second)
+						if c.IsReset() || c.PeerClosed() {
+							break
+						}
+						if _, err := c.Write(wire.Keepalive()); err != nil {
+							break
+						}
+					}
+					endT = vrt.Cur().Now()
+				}}
+			})
+			if err := w.AddPeer(peerConfig(remIP, 65001, 65002), pl, corebgp.WithHoldTime(9), corebgp.WithDialerControl(w.DialControl("P1"))); err != nil {
+				panic("harness: " + err.Error())
+			}
+			w.Serve(libAddr)
+			vrt.Sleep(14 * time.Second)
+			w.Close()
+			w.WaitServeDone()
+		})
+		return finishRun("C06", "refused-write", w, e, trace, false, func() (string, string) {
+			if estT < 0 || endT < 0 {
+				return "", ""
+			}
+			var lib *vnet.Conn
+			for _, c := range w.NW.Conns {
+				if c.Lib && c.ID == 0 {
+					lib = c
+				}
+			}
+			end := endT
+			if lib.ClosedAt >= 0 && lib.ClosedAt < end {
+				end = lib.ClosedAt // the session ended earlier (that is judged elsewhere)
+			}
+			limit := int64(4 * time.Second)
+			prev := estT
+			for _, ch := range lib.Chunks {
+				if ch.T < estT || ch.T > end {
+					continue
+				}
+				if ch.T-prev > limit {
+					return "keepalive-gap", fmt.Sprintf("corebgp wrote nothing between t=%s and t=%s although the session (hold time 9 s) was up: WriteUpdate calls that send nothing must not postpone the KEEPALIVE", time.Duration(prev), time.Duration(ch.T))
+				}
+				prev = ch.T
+			}
+			if end-prev > limit {
+				return "keepalive-gap", fmt.Sprintf("corebgp wrote nothing between t=%s and t=%s although the session (hold time 9 s) was up: WriteUpdate calls that send nothing must not postpone the KEEPALIVE", time.Duration(prev), time.Duration(end))
+			}
+			return "", ""
+		}, nil)
+	}}
+}
+
+var c06RefusedSizes = []int{4078, 5000, 70000}
+
 func c06AtStepScenarios(bound int) []*Scn {
 	base := c06Case{Local: 9, Remote: 90, Traffic: "ka-third", Writes: "probe-steps", Inbound: true, Prev: -1}
 	c06ProbeSteps = 0
@@ -639,6 +745,13 @@ func init() {
 				return
 			}
 			scnReplay("C06", func(name string) *Scn {
+				var size int
+				if n, _ := fmt.Sscanf(name, "refused-write/%d", &size); n == 1 {
+					return c06RefusedWriteScn(size, 2)
+				}
+				if !strings.HasPrefix(name, "schedule/") {
+					return nil
+				}
 				var cs c06Case
 				if json.Unmarshal([]byte(name[len("schedule/"):]), &cs) != nil {
 					return nil
